@@ -65,3 +65,9 @@ def extra(binary, build, tier, rng):
              ("normal", 64, -3.0, 0.5, M, rng.u64(), rng.choice(gens)), ("normal", 32, 10.0, 4.0, M, rng.u64(), rng.choice(gens)),
              ("lognormal", 64, 0.25, 0.75, M, rng.u64(), rng.choice(gens)), ("lognormal", 32, -1.0, 0.5, M, rng.u64(), rng.choice(gens))]
     yield from run_statd(binary, specs, "gof-samples", build)
+    # the law inside the tails (what the tail samplers produce): 12 equal-probability cells per side beyond |z| = 3.5 / x = 7, on 16 cores
+    from .stat_oracle import tail_request, judge_statd_lines
+    T = 1_600_000_000 if tier == "quick" else 16_000_000_000
+    treqs = [tail_request("norm", 64, T, rng.u64(), rng.choice(gens)), tail_request("exp", 64, T, rng.u64(), rng.choice(gens)),
+             tail_request("norm", 32, T // 4, rng.u64(), rng.choice(gens)), tail_request("exp", 32, T // 4, rng.u64(), rng.choice(gens))]
+    yield from judge_statd_lines(binary, treqs, "tail-gof-samples", build)
